@@ -353,7 +353,11 @@ pub fn build_clone(node: &Node, env: &Env) -> Option<CBx> {
       Some(match op {
         Un::Finalize => {
           let cn = env.counters.clone();
-          let f = move || lock!(cn).finalize_calls += 1;
+          let f = move || {
+            let mut c = lock!(cn);
+            c.finalize_calls += 1;
+            c.finalize_marks.push((crate::stamp::get(), crate::stamp::evseq()));
+          };
           two_c!(tf, s.finalize(f), s.finalize_threads(f))
         }
         Un::BoxIt => cbx(cbx(s)),
@@ -620,7 +624,11 @@ pub fn build(node: &Node, env: &Env) -> Bx {
         }
         Un::Finalize => {
           let cn = env.counters.clone();
-          let f = move || lock!(cn).finalize_calls += 1;
+          let f = move || {
+            let mut c = lock!(cn);
+            c.finalize_calls += 1;
+            c.finalize_marks.push((crate::stamp::get(), crate::stamp::evseq()));
+          };
           two!(tf, s.finalize(f), s.finalize_threads(f))
         }
         Un::Share => sendonly!(bx(s.share()), bx(s.share_threads())),
@@ -768,6 +776,7 @@ impl Probe {
         *lock!(self.snap) = Some(c);
       }
     }
+    crate::stamp::evseq_bump();
     let r = Rec { ev, step: crate::stamp::get(), vt: as_ticks(crate::vtime::now()) };
     lock!(self.log).push(r);
   }
@@ -852,6 +861,7 @@ pub fn exec(case: &PCase, sample_closed: bool) -> Trace {
   use crate::vtime;
   vtime::reset(conv_mode(case.mode));
   crate::stamp::set(crate::stamp::AT_SUBSCRIBE);
+  crate::stamp::evseq_reset();
   let env = Env::new(case.kinds.len().max(1));
   let p = build(&case.node, &env);
   let mut probe = Probe::new();
@@ -863,6 +873,7 @@ pub fn exec(case: &PCase, sample_closed: bool) -> Trace {
   if prompt {
     vtime::run_until_stalled();
   }
+  tr.finalize_after_step.push(lock!(env.counters).finalize_calls);
   if sample_closed {
     if let Some(s) = &sub {
       tr.closed.push((usize::MAX, s.is_closed()));
@@ -919,6 +930,7 @@ pub fn exec(case: &PCase, sample_closed: bool) -> Trace {
         tr.closed.push((k, s.is_closed()));
       }
     }
+    tr.finalize_after_step.push(lock!(env.counters).finalize_calls);
   }
   // let everything that is still scheduled run (bounded: periodic sources never end)
   crate::stamp::set(case.script.len());
